@@ -196,6 +196,39 @@ pub mod delay {
     delay_d!(d2, 2);
     delay_d!(d3, 3);
 
+    /// delay lines LONGER than one 64-sample buffer (65: just over; 100: not a multiple of 64), three
+    /// consecutive calls so that the ring buffer wraps inside a call; contents concrete and distinct
+    /// (the stream positions matter here, not the values), assertion at every sample index
+    #[kani::proof]
+    #[kani::unwind(102)]
+    pub fn long_delay_across_calls() {
+        let mut node = Delay(vec![Fixed::from(vec![-1.0f32; 65]), Fixed::from(vec![-1.0f32; 100])]);
+        let mut out = [Buffer::SILENT, Buffer::SILENT];
+        let mut call = 0usize;
+        while call < 3 {
+            let mut a = [0.0f32; LEN];
+            let mut i = 0;
+            while i < LEN {
+                a[i] = (call * LEN + i) as f32; // stream sample number
+                i += 1;
+            }
+            let inb = [Buffer::from(a), Buffer::from(a)];
+            node.process(&[Input::verif_new(&inb)], &mut out);
+            let mut t = 0;
+            while t < LEN {
+                let pos = call * LEN + t;
+                let want65 = if pos < 65 { -1.0 } else { (pos - 65) as f32 };
+                let want100 = if pos < 100 { -1.0 } else { (pos - 100) as f32 };
+                assert!(out[0][t] == want65, "channel delayed by exactly 65 samples across calls");
+                assert!(out[1][t] == want100, "channel delayed by exactly 100 samples across calls");
+                t += 1;
+            }
+            call += 1;
+        }
+        core::mem::forget(node);
+        kani::cover!(true, "end");
+    }
+
     /// per-channel ring buffers of different lengths; channels beyond the shortest of
     /// (ring buffers, input buffers, outputs) are untouched; no input: nothing happens
     #[kani::proof]
